@@ -478,6 +478,10 @@ class MutateModel(Contract):
     def model(self, I, info, bound, args, kwargs, node):
         src, beta = args[0], args[1]
         n = src.f["x"].n
+        if I.path.ghost.get("interruptible") and I.path.choose(2, "mutate-interrupted") == 1:
+            # the kernel runs user code for a long time: the user's interrupt (or an error of the likelihood) arrives here, before anything was appended
+            I.path.event("mutate-interrupted", src, beta)
+            raise RaiseSig("KeyboardInterrupt", node)
         o = mk_pop("mut", n, beta)
         acc = bound.f["history"].f["mcmc_acceptance"]
         I.call(I.getattr(acc, "append"), [R(z3.Real(fresh("acc")))], {}, node)
@@ -526,8 +530,19 @@ class RestoreFromCheckpointModel(Contract):
             h[nm] = SymList(it, None, z3.Real(fresh(f"sum_{nm}")), nm)
         h["beta"].last = R(b)
         ck_pop = mk_pop("ck_last", npop, R(b))
-        for k in ("x", "log_likelihood", "log_prior", "log_q"):
-            ck_pop.f[k] = pop.f[k]          # the stored copy has the same values as the restored population
+        g0 = getattr(getattr(p, "pre", None), "ghost", {})
+        final_ck = False
+        if g0.get("shape", {}).get("n_final_samples") and p.choose(2, "checkpoint-kind") == 1:
+            # the *forced final* checkpoint of a run with n_final_samples: written after the enlargement, so its population has n_final_samples points
+            # and is not the last stored population (which is the one after the last iteration, of the run's own size)
+            final_ck = True
+            p.assume(z3.And(b == 1, it >= 1, npop == g0["n_final"]))
+            nrun = z3.Int("ck_run_population_size")
+            p.assume(z3.And(nrun >= 1, nrun != npop), check=False)
+            ck_pop = mk_pop("ck_last", nrun, R(b))
+        else:
+            for k in ("x", "log_likelihood", "log_prior", "log_q"):
+                ck_pop.f[k] = pop.f[k]          # the stored copy has the same values as the restored population
         h["sample_history"] = SymList(z3.If(stored, it + 1, 0), ck_pop, None, "sample_history", elem="pop")
         bound.f["history"] = Obj("SMCHistory", h)
         if p.choose(2, "checkpointed-min-step") == 0:
@@ -536,7 +551,7 @@ class RestoreFromCheckpointModel(Contract):
             cms = z3.Real("ck_min_step")
             p.assume(cms >= 0, check=False)
             bound.f["_min_step"] = R(cms)
-        p.ghost["ck"] = {"it": it, "beta": b, "stored": stored, "pop": pop, "max_reached": None}
+        p.ghost["ck"] = {"it": it, "beta": b, "stored": stored, "pop": pop, "max_reached": None, "final": final_ck, "last_stored": ck_pop}
         # "same sampling arguments": the checkpoint satisfies the loop invariant of the run that wrote it
         g = getattr(getattr(p, "pre", None), "ghost", {})
         if "store" in g:
@@ -623,7 +638,26 @@ class Sample(Contract):
         }
         g = {"shape": shape, "N": N, "n_steps": n_steps, "max_n": max_n, "n_final": n_final, "every": every, "tol": tol, "ms": ms,
              "adaptive": adaptive, "store": store, "self": s}
+        if shape["checkpoint_callback"] or shape["checkpoint_every"]:
+            p.ghost["interruptible"] = True       # with checkpointing configured, the mutation step may be interrupted (post_raise)
         return Pre(s, [IV(N)], kw, g)
+
+    def post_raise(self, I, pre, sig):
+        if sig.exc != "KeyboardInterrupt" or not I.path.ghost.get("interruptible"):
+            return super().post_raise(I, pre, sig)
+        # an interruption inside the mutation step: whatever checkpoints exist at that moment are complete ones - each was written at the end of
+        # an iteration, with the history already holding that iteration's population (C12: the file is current and loadable; C18/C11: resuming
+        # from it reproduces the record)
+        p, g = I.path, pre.ghost
+        for x in [e for e in p.events if e[0] == "callback"]:
+            ck = x[1]
+            sh_last = ck.f.get("sh_last")
+            mutated = any(m[0] == "mutate" and m[4] is ck.f["samples"] for m in p.events)
+            p.prove(z3.And(z3.BoolVal(mutated), to_int(ck.f["hist_len"]) == to_int(ck.f["iteration"]),
+                           z3.Implies(g["store"], z3.And(to_int(ck.f["sh_len"]) == to_int(ck.f["iteration"]) + 1,
+                                                         z3.BoolVal(sh_last is not None and same_pop(sh_last, ck.f["samples"]))))),
+                    f"{self.qual}:C12:C18:C11:a checkpoint that exists when the mutation step is interrupted is a complete one (written at the end of an iteration: its population is the mutated one, every series has `iteration` entries and the stored populations end with the checkpointed one)")
+        p.prove(z3.BoolVal(True), f"{self.qual}:C12:interruption of the mutation step propagates to the caller")
 
     # ---------------------------------------------------------------- loop
     def loops(self, I, pre):
@@ -872,6 +906,17 @@ class Sample(Contract):
         muts = [x for x in ev if x[0] == "mutate"]
         if nfin is not None and muts and to_real(muts[-1][2]) is not None:
             pass
+        # recorded entries are a record: nothing a run does replaces an entry of the history (lists only grow)
+        sets = [x for x in ev if x[0] == "list.setitem"]
+        for x in sets:
+            keep = x[3] is not None and x[4] is not None and isinstance(x[3], Obj) and isinstance(x[4], Obj) and same_pop(x[3], x[4])
+            p.prove(z3.BoolVal(keep), f"{q}:C18:C11:an entry of history.{x[1]} is replaced only by an equal one (stored populations are the populations after their iterations; resuming from the final checkpoint of a run with n_final_samples must not overwrite the last of them)")
+        if sh["resume_from"]:
+            ck = p.ghost.get("ck")
+            if ck is not None and ck.get("final"):
+                last = list_last(h.f["sample_history"])
+                p.prove(z3.Implies(g["store"], z3.BoolVal(last is ck["last_stored"])), f"{q}:C18:C11:resuming from the forced final checkpoint keeps the last stored population (the one after the last iteration, not the enlarged one)")
+                p.prove(z3.BoolVal(fin is ck["pop"]), f"{q}:C11:resuming from the forced final checkpoint returns the checkpointed (already enlarged) population without another enlargement")
         # resumed, finished run: loop not executed, population returned as checkpointed
         if sh["resume_from"]:
             ck = p.ghost.get("ck")
